@@ -5,4 +5,9 @@ MCLabelBytes == <<5, 4, 5, 2, 4>>
 MCNames == {<<3, 2, 1>>, <<5, 3, 2, 1>>, <<4, 1>>}
 MCRNames == {<<5, 3, 2, 1>>}
 MCFixed == {6}
+\* the real limits (1460 / 8966): TXT records whose size puts a datagram exactly at, and one octet over, a limit
+\* (<<4, 1>> is 10 octets on the wire: 12 + 10 + 10 + 1428 = 1460;  12 + 10 + 10 + 8934 = 8966)
+RealFixed == {6, 700, 1428, 1429, 8934}
+RealFixedQuick == {6, 1428, 1429}
+RealFixedWithName == {0, 6}
 =============================================================================
